@@ -8,6 +8,14 @@ from .pm import norm, body_nodes, AnalysisError
 from . import df
 from .cfg import stmt_paths, struct_dominates
 
+
+def _ln(n):
+    """source line of a defining construct (a comprehension clause has none of its own: its target's)"""
+    ln = getattr(n, "lineno", None)
+    if ln is None:
+        ln = getattr(getattr(n, "target", None), "lineno", None)
+    return ln if ln is not None else 0
+
 PROGRAM = None
 
 MUTATORS = {"append", "extend", "insert", "pop", "remove", "sort", "reverse", "clear", "update", "setdefault", "popitem", "add", "discard"}
@@ -165,10 +173,10 @@ class Fresh:
         if at_stmt is not None:
             dom = [d for d in defs if struct_dominates(self.paths, d[1], at_stmt)]
             if dom:
-                latest = max(dom, key=lambda d: d[1].lineno)
-                cands = [latest] + [d for d in defs if d not in dom and latest[1].lineno < d[1].lineno < at_stmt.lineno]
+                latest = max(dom, key=lambda d: _ln(d[1]))
+                cands = [latest] + [d for d in defs if d not in dom and _ln(latest[1]) < _ln(d[1]) < _ln(at_stmt)]
             else:
-                cands = [d for d in defs if d[1].lineno <= at_stmt.lineno] or defs
+                cands = [d for d in defs if _ln(d[1]) <= _ln(at_stmt)] or defs
                 if name in self.params:
                     return (False, False, "parameter %s (may be unassigned here)" % name)
         inner = self._enclosing_loop_def(name, defs, at_stmt)
